@@ -31,6 +31,12 @@
 #ifndef ARRAYS
 #define ARRAYS 2         // lists containing an array: 0 = excluded, 1 = only those, 2 = do not care
 #endif
+#ifndef CONSTARR
+#define CONSTARR 0       // const applied directly to an array type (CPPConstType over CPPArrayType; the parser itself always
+#endif                   // builds the array over the const element type): 0 = excluded, 1 = only those, 2 = do not care
+#ifndef NONAME
+#define NONAME 0         // 0: print the declaration `T v`; 1: abstract declarator, output_instance with an empty name (unnamed
+#endif                   // parameters); 2: abstract declarator through output() (type names in the database)
 #ifndef PTRARR
 #define PTRARR 2         // types containing a pointer or reference to an array: 0 = excluded, 1 = only those, 2 = do not care
 #endif
@@ -116,12 +122,13 @@ NOINL static int read_suffixes(int k, TypeDesc &t) {
 // declarator in [k, end): ptr-operators, then name or ( declarator ), then suffixes.  [dcl.meaning]: the prefix
 // operators apply to T first (left to right), then the suffixes, then whatever the parenthesised declarator says.
 NOINL static void read_declarator(int k, int end, TypeDesc &t, int depth) {
+  bool after_star = false;       // a cv-qualifier in a declarator is part of a ptr-operator: only after '*' [dcl.decl]
   for (;;) {
     k = skip_ws(k);
     int w;
-    if (is_ch(k, '*')) { td_apply(t, M_PTR, 0); k++; }
-    else if (is_ch(k, '&')) { td_apply(t, M_REF, 0); k++; }
-    else if ((w = word_at(k, "const")) != 0) { td_apply(t, M_CONST, 0); k += w; }
+    if (is_ch(k, '*')) { td_apply(t, M_PTR, 0); k++; after_star = true; }
+    else if (is_ch(k, '&')) { td_apply(t, M_REF, 0); k++; after_star = false; }
+    else if ((w = word_at(k, "const")) != 0) { if (!after_star) { t.ok = false; return; } td_apply(t, M_CONST, 0); k += w; }
     else break;
   }
   if (k < end && is_ch(k, '(')) {
@@ -136,10 +143,13 @@ NOINL static void read_declarator(int k, int end, TypeDesc &t, int depth) {
     read_declarator(k + 1, close, t, depth - 1);
     return;
   }
-  if (!(k < end) || !is_alpha(k)) { t.ok = false; return; }
-  R_name = (char)T_v[k];
-  k++;
-  if (is_alpha(k) || is_digit(k)) { t.ok = false; return; }
+  if (k < end && is_alpha(k)) {
+    R_name = (char)T_v[k];
+    k++;
+    if (is_alpha(k) || is_digit(k)) { t.ok = false; return; }
+  } else if (!NONAME) {            // only an abstract declarator may omit the name
+    t.ok = false; return;
+  }
   k = read_suffixes(k, t);
   if (skip_ws(k) != end) t.ok = false;
 }
@@ -197,6 +207,9 @@ NOINL static bool valid_list(const int *m, int n) {
     if (t.n == before) return false;
   }
   for (int k = 1; k < t.n; k++) if ((t.m[k] == M_PTR || t.m[k] == M_REF) && t.m[k - 1] == M_ARR) ptr_to_arr = true;
+  bool const_on_arr = false;
+  for (int k = 1; k < n; k++) if (m[k] == M_CONST && m[k - 1] == M_ARR) const_on_arr = true;
+  if (CONSTARR != 2 && const_on_arr != (CONSTARR == 1)) return false;
   if (ARRAYS != 2 && has_arr != (ARRAYS == 1)) return false;
   if (PTRARR != 2 && ptr_to_arr != (PTRARR == 1)) return false;
   return true;
@@ -223,7 +236,13 @@ NOINL static void check_one(CPPSimpleType *base, int basecode, const int *m, int
   for (int k = 0; k < n; k++) t = wrap(t, m[k], 2 + k);
 #endif
   vs_truncate(out, 0);
+#if NONAME == 2
+  t->output(*out, 0, nullptr, false);
+#elif NONAME == 1
+  t->output_instance(*out, "", nullptr);
+#else
   t->output_instance(*out, "v", nullptr);
+#endif
   load_tokens(out);
   TypeDesc got;
   R_name = 0;
@@ -239,7 +258,7 @@ NOINL static void check_one(CPPSimpleType *base, int basecode, const int *m, int
   printf(" ok=%d\n", (int)got.ok);
 #endif
   ASSERT(got.ok, "C06 printed declaration is a well-formed C++ declaration of the supported shape");
-  ASSERT(!got.ok || R_name == 'v', "C06 printed declaration declares the given name");
+  ASSERT(!got.ok || R_name == (NONAME ? 0 : 'v'), "C06 printed declaration declares the given name (none for an abstract declarator)");
   ASSERT(!got.ok || got.base == want.base, "C06 printed declaration keeps the base type");
   ASSERT(!got.ok || got.base != want.base || td_equal(got, want),
          "C06 printed declaration denotes the type built: same cv-qualification and pointer/reference/array structure");
